@@ -33,8 +33,8 @@ CLAIMS = {
         "note": "PARTIAL: the interleaving model covers the word protocol (not the control flow between sites, which the poll-granular differential run exercises); memory model = release/acquire with RMW release sequences. event-listener is modelled, not verified.",
     },
     "C02": {
-        "text": "Exclusion (at most one write guard and then no other guard; at most one upgradable guard) is a Lean theorem over every finite history of the poll-granular RwLock model over the full alphabet (start/poll/cancel of read, upgradable_read, write and upgrade futures, borrowed and Arc; try_*; upgrade; try_upgrade; the three downgrades; guard drops). The invariant WordInv determines both words exactly: mutex.state = (W+U+PW+PU) + 2*starved, state = (W+PW+PU) + 2*(R+U), W+U+PW+PU <= 1, a write guard is alone. " + _TIE + " Compared fields: outcome and both state words." + _ATOM + " Theorems: C02_interleaved (at most one writer, a writer excludes every shared access - including a write guard in the middle of downgrade_write -, at most one upgradable guard, under every interleaving incl. the states inside an operation), C02_interleaved_word." + _SEARCH,
-        "note": "PARTIAL: no happens-before theorem for the RwLock (loom searches for a missing edge); the interleaving model covers the word protocol, not the control flow between sites. Reader-count overflow aborts are outside the model.",
+        "text": "Exclusion (at most one write guard and then no other guard; at most one upgradable guard) is a Lean theorem over every finite history of the poll-granular RwLock model over the full alphabet (start/poll/cancel of read, upgradable_read, write and upgrade futures, borrowed and Arc; try_*; upgrade; try_upgrade; the three downgrades; guard drops). The invariant WordInv determines both words exactly: mutex.state = (W+U+PW+PU) + 2*starved, state = (W+PW+PU) + 2*(R+U), W+U+PW+PU <= 1, a write guard is alone. " + _TIE + " Compared fields: outcome and both state words." + _ATOM + " Theorems: C02_interleaved (at most one writer, a writer excludes every shared access - including a write guard in the middle of downgrade_write -, at most one upgradable guard, under every interleaving incl. the states inside an operation), C02_interleaved_word, C02_hb (release/acquire views over the same agents: every write section happens-before every later access, every read section before every later write guard; the ten synchronising orderings come from the table, C02_ord_ok)." + _SEARCH,
+        "note": "PARTIAL: the interleaving models cover the word protocol (not the control flow between sites); happens-before (C02_hb) in the release/acquire fragment. Reader-count overflow aborts are outside the models.",
     },
     "C11": {
         "text": "The slot invariant (at most one of write guard / upgradable guard / writer waiting for readers / pending upgrade, at every state of every history), the fact that try_upgrade, upgrade() and downgrade_to_upgradable never touch the inner mutex, and 'a pending upgrade excludes writers and upgradable readers' are Lean theorems on the poll-granular RwLock model. " + _TIE + " Compared fields: outcome and both state words; monitors C11 (slot word) and C02." + _ATOM + " Theorems: C11_interleaved_slot (the inner mutex never has two holders, under every interleaving), C11_interleaved_downgrade (between the two atomic steps of downgrade_write, and while an upgradable guard or a pending upgrade exists, there is no writer and the inner mutex is not available)." + _SEARCH,
@@ -69,8 +69,8 @@ CLAIMS = {
         "note": "PARTIAL: usize wrap-around outside the models (Nat); the interleaving model covers the counter protocol, not the wake-up side.",
     },
     "C04": {
-        "text": "Lean theorems over every finite history of the poll-granular OnceCell model (any number of wait/get_or_init/get_or_try_init/set callers, initialisers resolved ok/err/panic or cancelled at any await point in any order, take between epochs): at most one initialiser runs and none once initialised (state 1 iff exactly one live caller holds the guard; a value is stored iff state 2); a stored value is never replaced until take/drop; whatever a completed caller reports is the stored value; set hands its argument back exactly when its closure did not run; take re-opens the cell. " + _TIE + " Compared fields: outcome (incl. reported value), state word, stored value, drop count." + _ATOM + " Theorems: C04_interleaved_single (one initialiser under every interleaving), C04_publication (whoever reads state == Initialized has the ptr::write of the stored value in its view, given store Release / load Acquire from the table)." + _SEARCH,
-        "note": "PARTIAL: 'dropped exactly once' is checked by the harness's per-instance drop log (and the drop count is compared with the model) but not yet a theorem; publication ordering and blocking forms are outside this model; atomic polls.",
+        "text": "Lean theorems over every finite history of the poll-granular OnceCell model (any number of wait/get_or_init/get_or_try_init/set callers, initialisers resolved ok/err/panic or cancelled at any await point in any order, take between epochs): at most one initialiser runs and none once initialised (state 1 iff exactly one live caller holds the guard; a value is stored iff state 2); a stored value is never replaced until take/drop; whatever a completed caller reports is the stored value; set hands its argument back exactly when its closure did not run; take re-opens the cell; every payload instance is in exactly one place at any time and is dropped exactly once (C04_accounting, C04_dropped_once). " + _TIE + " Compared fields: outcome (incl. reported value), state word, stored value, drop count." + _ATOM + " Theorems: C04_interleaved_single (one initialiser under every interleaving), C04_publication (whoever reads state == Initialized has the ptr::write of the stored value in its view, given store Release / load Acquire from the table)." + _SEARCH,
+        "note": "PARTIAL: blocking forms are outside the models (loom scenarios only); atomic polls in the poll-granular model.",
     },
     "C08": {
         "text": "Lean theorems over every finite history of the OnceCell model: once initialised and with no outstanding wake-up nobody polled is pending (C08_init); state 1 holds exactly while a live caller runs its initialiser, so Err, panic and cancellation all leave it (C08_not_stuck); in state 0 with no outstanding wake-up no polled get_or_init-style caller is pending, i.e. one was woken and took over (C08_handover); an error or panic is reported only in the poll in which the caller's own initialiser produced it (C08_blame). Invariants: WInv, RInv (registration on active_initializers / passive_waiters, no stale listeners), KInv (wake bookkeeping; all listeners notified in state 2; a notified active listener in state 0). " + _TIE + _SEARCH,
